@@ -101,10 +101,10 @@ PROPS = {
     ),
     "C15": dict(
         level="other",
-        technique="frame contracts (no header field changes) on RawChunk::prepare_allocation(_range) and Verus/Kani contracts on bump_prepare_*; commit position contract of alloc_try_with_mut",
-        claim="prepare_allocation and prepare_allocation_range change no header field and return the largest aligned sub-range of the free part of the current chunk (kernel proved by Verus for all inputs; glue bounded). alloc_try_with_mut commits exactly the value (position at its end/start aligned to MIN_ALIGN).",
-        note="The MutBumpVec/MutBumpVecRev/MutBumpString fill loops, allocate_prepared_slice(_rev) and the *_mut iterator helpers are NOT yet under contract.",
-        not_covered=["MutBumpVec/MutBumpVecRev/MutBumpString filling and finalisation", "alloc_iter_mut(_rev), alloc_fmt_mut, alloc_cstr_fmt_mut", "clauses about exits by unwinding / panics injected in callbacks (neither verifier has unwinding semantics)"],
+        technique="frame contracts (no header field changes) on RawChunk::prepare_allocation(_range), Verus/Kani contracts on bump_prepare_*, prepare+fill+commit contracts on the typed slice methods and on MutBumpVec/MutBumpVecRev, commit contract of alloc_try_with_mut",
+        claim="prepare_allocation(_range) change no header field and return the largest aligned sub-range of the free part of the current chunk (kernel proved by Verus for all inputs; glue bounded). try_prepare_slice_allocation(_rev) + filling + allocate_prepared_slice(_rev), and MutBumpVec / MutBumpVecRev push / drop / into_slice: the position never moves while filling or when dropped unfinalised; finalising yields exactly the pushed elements (reversed order of pushing for rev) and advances the position by the contents plus padding below max(element align, MIN_ALIGN). alloc_try_with_mut commits exactly the value.",
+        note="MutBumpVec / MutBumpVecRev: try_push (with growth inside one chunk), drop unfinalised, into_slice are under contract for u16 and <=3 pushes; prepare/commit of typed slices forward and reverse through the trait methods likewise. MutBumpString, filling that continues in a bigger chunk, zero-sized elements and the *_mut iterator/format helpers are NOT covered.",
+        not_covered=["MutBumpString; filling that outgrows the current chunk (covered only through the slow-path contracts of C01)", "alloc_iter_mut(_rev), alloc_fmt_mut, alloc_cstr_fmt_mut, iterators with wrong size hints", "zero-sized elements", "clauses about exits by unwinding / panics injected in callbacks (neither verifier has unwinding semantics)"],
     ),
     "C18": dict(
         level="other",
@@ -130,14 +130,14 @@ PROPS = {
     "C08": dict(
         level="other",
         technique="per-operation refinement contracts against std::vec::Vec from an arbitrary symbolic vector state (fixed buffer), checked by Kani",
-        claim="BumpBox<[T]> (remove, swap_remove, pop, truncate, clear, retain, dedup, drain from both ends) and FixedBumpVec (try_push, try_insert, try_extend_from_slice_copy, try_resize, capacity, is_full) return the same values and leave the same contents/length as std::vec::Vec for every symbolic state with len<=4, capacity 5 and every in-range argument; capacity >= len; fixed vectors never change address/capacity and report an error when full keeping their contents; ZST capacity is usize::MAX. Because the precondition is 'any state', not 'a state built by the harness', this extends to operation sequences by induction.",
+        claim="BumpBox<[T]> (remove, swap_remove, pop, truncate, clear, retain, dedup) and FixedBumpVec (try_push, try_insert, try_extend_from_slice_copy, try_resize, capacity, is_full) return the same values and leave the same contents/length as std::vec::Vec for every symbolic state with len<=4, capacity 5 and every in-range argument; capacity >= len; fixed vectors never change address/capacity and report an error when full keeping their contents; ZST capacity is usize::MAX. Because the precondition is 'any state', not 'a state built by the harness', this extends to operation sequences by induction.",
         note="Bounded len<=4/cap 5, element type u8. BumpVec, MutBumpVec, MutBumpVecRev (growth paths), splice, extract_if, map, into_flattened, out-of-range panics are NOT covered.",
-        not_covered=["BumpVec / MutBumpVec / MutBumpVecRev and their growth / capacity promises", "splice, extract_if, map(_in_place), extend_from_within, append, shrink_to_fit, into_* conversions", "panics on out-of-range arguments"],
+        not_covered=["BumpVec / MutBumpVec / MutBumpVecRev and their growth / capacity promises", "drain (Kani leaves 23 checks UNDETERMINED: pointer offset_from on the drained range; harness kept unregistered)", "splice, extract_if, map(_in_place), extend_from_within, append, shrink_to_fit, into_* conversions", "panics on out-of-range arguments"],
     ),
     "C06": dict(
         level="other",
         technique="drop-counting element type whose Drop asserts 'never twice'; per-operation contracts on BumpBox<[T]> and its iterators, checked by Kani for panic-free executions",
-        claim="For clear, truncate, remove, swap_remove, pop, retain, drain (partially consumed), into_iter (consumed from both ends, then dropped) on a symbolic BumpBox<[Tok]> (len<=3): after the operation and after dropping every owner each element has been dropped exactly once, a removed value is not dropped before the caller drops it, and leak / into_raw drop nothing.",
+        claim="For clear, truncate, remove, swap_remove, pop, retain, into_iter (consumed from both ends, then dropped) on a symbolic BumpBox<[Tok]> (len<=3): after the operation and after dropping every owner each element has been dropped exactly once, a removed value is not dropped before the caller drops it, and leak / into_raw drop nothing.",
         note="Panic-free executions only: neither verifier has unwinding semantics, so every clause about a callback that panics mid-operation is out of reach. FixedBumpVec/BumpVec/MutBumpVec(Rev) wrappers, splice, extract_if, map_in_place, dedup, split_off, append, resize are not covered.",
         not_covered=["every panic-injection clause", "growable vectors and their iterators; splice, extract_if, map, dedup, split_off, append, resize, extend", "zero-sized element types"],
     ),
